@@ -478,8 +478,8 @@ func init() {
 		m := &basetypes.MsgUpdateClassIssuers{Admin: a.Addr, ClassId: c.Id}
 		for _, u := range g.Actors {
 			is := v.IsIssuer(c.Key, u.Addr)
-			if mode != ModeValid && g.R.Chance(0.3) {
-				is = !is
+			if (mode != ModeValid && g.R.Chance(0.3)) || g.R.Chance(0.12) {
+				is = !is // also by the rightful admin: removing a non-issuer, adding an issuer again
 			}
 			if is && g.R.Chance(0.35) {
 				m.RemoveIssuers = append(m.RemoveIssuers, u.Addr)
@@ -709,7 +709,7 @@ func init() {
 			bal *big.Rat
 		}
 		var adm []pair
-		if md("admission") == ModeValid {
+		{
 			for _, bb := range v.Balances {
 				if AddrStr(bb.Address) != a.Addr {
 					continue
@@ -729,8 +729,16 @@ func init() {
 				bk = adm[g.R.Intn(len(adm))].bk
 			}
 		}
+		// a near miss in admission: a list whose first entries are admissible and a later one is not
+		mixed := md("admission") != ModeValid && g.R.Chance(0.6)
+		if md("admission") != ModeValid && !mixed {
+			adm = nil
+		}
 		m := &baskettypes.MsgPut{Owner: a.Addr, BasketDenom: bk.BasketDenom}
 		n := g.R.Range(1, 3)
+		if mixed {
+			n = g.R.Range(2, 3)
+		}
 		for i := 0; i < n; i++ {
 			var b *basev1.Batch
 			var bal *big.Rat
@@ -740,7 +748,7 @@ func init() {
 					mine = append(mine, p)
 				}
 			}
-			if len(mine) > 0 && g.R.Chance(0.9) {
+			if len(mine) > 0 && g.R.Chance(0.9) && !(mixed && i == n-1) {
 				p := mine[g.R.Intn(len(mine))]
 				b, bal = p.b, p.bal
 			} else {
@@ -903,9 +911,15 @@ func init() {
 		}
 		m := &markettypes.MsgUpdateSellOrders{Seller: a.Addr}
 		md := g.oneAspect(mode, "amount", "denom", "expiration")
-		n := g.R.Range(1, 2)
+		n := g.R.Range(1, 3)
 		for i := 0; i < n; i++ {
 			o := cands[g.R.Intn(len(cands))]
+			if i > 0 && g.R.Chance(0.25) {
+				o = v.OrderByID(m.Updates[0].SellOrderId) // the same order twice in one message
+				if o == nil {
+					o = cands[g.R.Intn(len(cands))]
+				}
+			}
 			u := &markettypes.MsgUpdateSellOrders_Update{SellOrderId: o.Id, DisableAutoRetire: g.R.Chance(0.5)}
 			b := v.BatchByKey(o.BatchKey)
 			p := 6
